@@ -183,7 +183,11 @@ func genC14(r *Rng, tier string) *World {
 			case x < 0.32:
 				return VS(""), true
 			case x < 0.7:
-				return genSatisfying(r, n), true
+				sv := genSatisfying(r, n)
+				if sv.K == "s" && sv.S != strings.TrimSpace(sv.S) {
+					sv.S = strings.TrimSpace(sv.S) // padded strings are not part of the common record (zenv trims by documented design)
+				}
+				return sv, true
 			}
 			v := genTyped(r, n.Kind)
 			if v.K == "s" && v.S != strings.TrimSpace(v.S) {
@@ -235,6 +239,28 @@ func genC14(r *Rng, tier string) *World {
 			}
 		}
 	}
+	// padded strings are not part of the common record (zenv trims by documented design)
+	var trim func(v Val) Val
+	trim = func(v Val) Val {
+		switch v.K {
+		case "s":
+			v.S = strings.TrimSpace(v.S)
+		case "l":
+			l := VL()
+			for _, e := range v.L {
+				l.L = append(l.L, trim(e))
+			}
+			return l
+		case "m":
+			m := VM()
+			for _, kv := range v.M {
+				m.M = append(m.M, KV{kv.K, trim(kv.V)})
+			}
+			return m
+		}
+		return v
+	}
+	in = trim(in)
 	hasSlice := false
 	root.Walk(func(n *Node) {
 		if n.Kind == "slice" {
